@@ -103,6 +103,15 @@ pub fn o_c20(_p: &Plan, b: &Built, st: &mut Stats) -> Result<bool, Fail> {
                 bi.bid, e
             ))
         })?;
+        // width, precision, fill and the alternate flag of the caller's placeholder change nothing
+        if let Some(v) = b.ctx.debug_variants.lock().unwrap().get(&bi.bid) {
+            if let Some((spec, other)) = v.first() {
+                return Err(Fail::new(format!(
+                    "builder {}: formatted with {} the text is {:?}, with {{:?}} it is {:?}",
+                    bi.bid, spec, other, text
+                )));
+            }
+        }
         // print_par_seq writes the same plan to standard output
         if let Some(out) = b.ctx.printed_texts.lock().unwrap().get(&bi.bid) {
             let from_stdout = parse_par_seq(out).map_err(|e| {
